@@ -4,6 +4,8 @@ import SkimModel.Driver.C10
 import SkimModel.Driver.C13
 import SkimModel.Driver.C12
 import SkimModel.Driver.C02
+import SkimModel.Driver.C03
+import SkimModel.Driver.C04
 import SkimModel.Driver.C15
 import SkimModel.Driver.C16
 import SkimModel.Driver.C18
@@ -38,6 +40,14 @@ def answer (line : String) : String :=
     | "C12" => C12.answer case impl
     | "C02" =>
       match C02.handle case impl with
+      | .ok (m, v) => m ++ "\t" ++ v
+      | .error e => "error:" ++ e ++ "\terror"
+    | "C03" =>
+      match C03.handle case impl with
+      | .ok (m, v) => m ++ "\t" ++ v
+      | .error e => "error:" ++ e ++ "\terror"
+    | "C04" =>
+      match C04.handle case impl with
       | .ok (m, v) => m ++ "\t" ++ v
       | .error e => "error:" ++ e ++ "\terror"
     | "C15" => C15.answer case impl
